@@ -12,6 +12,7 @@ import (
 	"hash/crc32"
 	"hash/fnv"
 	"io"
+	"math"
 	"os"
 	"strings"
 	"sync"
@@ -497,6 +498,44 @@ func TestC07_R_ImportedFilesMatchReference(t *testing.T) {
 		if got != want || gsz != wsz {
 			t.Fatalf("C07: a %d-byte file on disk imported by BuildUnixFSRecursive = %s / %d, reference importer %s / %d", n, got, gsz, want, wsz)
 		}
+	}
+}
+
+// C07: ... also for files whose size the file system does not report: kernel pseudo-files (procfs reports size 0 for
+// megabytes of content), like files that are still being written, have to be imported by what reading them delivers.
+func TestC07_R_ImportedPseudoFilesMatchReference(t *testing.T) {
+	big := 0
+	for _, p := range []string{"/proc/kallsyms", "/proc/modules", "/proc/cpuinfo", "/proc/filesystems", "/proc/devices", "/proc/self/mountinfo"} {
+		fi, err := os.Lstat(p)
+		if err != nil || !fi.Mode().IsRegular() {
+			continue
+		}
+		before, err := os.ReadFile(p)
+		if err != nil {
+			continue
+		}
+		l, sz, ierr := builder.BuildUnixFSRecursive(p, NewStore().LinkSystem())
+		after, err := os.ReadFile(p)
+		if err != nil || !bytes.Equal(before, after) {
+			t.Logf("%s changed while it was imported: not used", p)
+			continue
+		}
+		if ierr != nil {
+			t.Fatalf("C07 import of %s (%d bytes, reported size %d): %v", p, len(before), fi.Size(), ierr)
+		}
+		want, wsz, err := refImportFile(NewStore(), before, refFileOpts{Chunker: "size-262144", Width: 174, RawLeaves: true, CidV1: true})
+		if err != nil {
+			t.Fatal(err)
+		}
+		if cidOf(l) != want || sz != wsz {
+			t.Fatalf("C07: %s (%d bytes of content, file system reports size %d) imported by BuildUnixFSRecursive = %s / %d, reference importer %s / %d", p, len(before), fi.Size(), cidOf(l), sz, want, wsz)
+		}
+		if len(before) > 262144 && fi.Size() < int64(len(before)) {
+			big++
+		}
+	}
+	if big == 0 {
+		t.Log("no pseudo-file of more than one chunk whose size is under-reported is readable here: only small ones compared")
 	}
 }
 
@@ -1316,10 +1355,22 @@ func TestC01_R_VeryLargeLinkWidths(t *testing.T) { veryLargeLinkWidths(t) }
 func TestC04_R_VeryLargeLinkWidths(t *testing.T) { veryLargeLinkWidths(t) }
 
 func veryLargeLinkWidths(t *testing.T) {
-	for _, c := range []struct{ w, chunks int }{{4097, 4097}, {4097, 4098}, {5000, 4098}, {5000, 9000}, {22311, 22311}, {30000, 30001}, {70000, 65537}} {
+	for _, c := range []struct{ w, chunks int }{{4097, 4097}, {4097, 4098}, {5000, 4098}, {5000, 9000}, {22311, 22311}, {30000, 30001}, {70000, 65537},
+		// "no limit": the setting is an int, and a flat file is asked for by making it as large as an int gets
+		{math.MaxInt, 300}, {math.MaxInt, 2}} {
 		data := lcgBytes(c.chunks*2-1, byte(c.w), 0) // chunks of 2 bytes, the last one of 1
 		st := NewStore()
-		got, gsz, err := buildFile(st, data, "size-2", c.w)
+		var got cid.Cid
+		var gsz uint64
+		var err error
+		func() {
+			defer func() {
+				if r := recover(); r != nil {
+					err = fmt.Errorf("panic: %v", r)
+				}
+			}()
+			got, gsz, err = buildFile(st, data, "size-2", c.w)
+		}()
 		if err != nil {
 			t.Fatalf("C07 width %d, %d chunks: %v", c.w, c.chunks, err)
 		}
